@@ -869,3 +869,255 @@ Proof.
 Qed.
 End IterSpec.
 
+
+(** * The loop of [stmt], [stmt], [Scan] *)
+Lemma starts_space_trim_suffix t d : starts_space t = false -> starts_space (trim_suffix t d) = false.
+Proof. unfold trim_suffix. destruct (has_suffix t d); [apply starts_space_firstn|auto]. Qed.
+
+Lemma emit_spec o s1 text st s' :
+  emit o s1 text = Ok (st, s') -> text = firstn (Z.to_nat (pos s1)) (input s1) ->
+  starts_space (input s1) = false ->
+  input s1 = text ++ input s' /\ RawOf (delim s1) text st /\ Pos st = total s1 - zlen text /\
+  pos s' = 0 /\ delim s' = delim s1 /\ total s' = total s1 /\ zlen text = pos s1.
+Proof.
+  unfold emit. intros H Ht Hns. inv_bind H. apply slice_from_ok in Ha as [Hb ->].
+  injection H as <- <-. simpl.
+  assert (starts_space text = false) as Hns2 by (rewrite Ht; apply starts_space_firstn; exact Hns).
+  repeat split; auto.
+  - rewrite Ht. symmetry; apply firstn_skipn.
+  - set (t := if OmitDelimiter o || negb (bytes_eqb (delim s1) delimiter) then trim_suffix text (delim s1) else text).
+    assert (exists dl, text = t ++ dl /\ (dl = [] \/ dl = delim s1)) as (dl & Hdl & Hdl2).
+    { unfold t. destruct (_ || _); [apply trim_suffix_app|exists []; rewrite app_nil_r; auto]. }
+    assert (starts_space t = false) as Hns3.
+    { unfold t. destruct (_ || _); [apply starts_space_trim_suffix|]; exact Hns2. }
+    destruct (trim_space_decomp _ Hns3) as (sp & Hsp & Hsp2).
+    exists sp, dl. simpl. split; [|auto]. rewrite Hdl at 1. rewrite Hsp at 1. rewrite <- app_assoc. reflexivity.
+  - rewrite Ht. apply zlen_firstn. lia.
+Qed.
+
+Section LoopSpec.
+Variable o : opts.
+Variable nested : scanner -> res (scanner * option Stmt).
+Hypothesis nested_mono : forall b b' r, pos b = 0 -> delim b <> [] -> nested b = Ok (b', r) ->
+  total b <= total b' /\ pos b' = 0 /\ delim b' <> [].
+Hypothesis noGo : GoCommand o = false.
+Hypothesis noTry : MatchBeginTryCatch o = false.
+Variables (I0 D0 : bytes) (T0 : Z).
+
+Definition LI (s : scanner) : Prop :=
+  starts_space (input s) = false /\ delim s <> [] /\ 0 <= pos s /\
+  total s - pos s + zlen (input s) = T0 /\
+  (forall g tl d', input s = g ++ tl -> Gap o (delim s) g d' -> exists g0, I0 = g0 ++ tl /\ Gap o D0 g0 d').
+
+Definition StmtResult (s' : scanner) (r : option Stmt) : Prop :=
+  pos s' = 0 /\ delim s' <> [] /\ total s' + zlen (input s') = T0 /\
+  match r with
+  | None => input s' = [] /\ Gap o D0 I0 (delim s')
+  | Some st => exists g raw, I0 = g ++ raw ++ input s' /\ Gap o D0 g (delim s') /\
+                             RawOf (delim s') raw st /\ raw <> [] /\ Pos st = T0 - zlen I0 + zlen g
+  end.
+
+Lemma LI_adv s s1 : LI s -> adv s s1 -> LI s1.
+Proof.
+  intros (L1 & L2 & L3 & L4 & L5) (A1 & A2 & A3 & A4). unfold LI. rewrite A1, A2.
+  repeat split; auto; lia.
+Qed.
+Lemma LI_strip s s1 : LI s -> Strip o s s1 -> LI s1.
+Proof.
+  intros (L1 & L2 & L3 & L4 & L5) (S1 & S2 & S3 & S4 & S5). unfold LI.
+  repeat split; auto; try lia.
+  intros g tl d' Hg HG. destruct (S5 _ _ _ Hg HG) as (g1 & Hg1 & HG1). eapply L5; eauto.
+Qed.
+
+Lemma stmt_loop_spec lf : forall s d op s' r,
+  stmt_loop o nested lf s d op = Ok (s', r) -> LI s -> StmtResult s' r.
+Proof.
+  induction lf as [|lf IH]; intros s d op s' r H L; simpl in H; [discriminate|].
+  inv_bind H. destruct L as (L1 & L2 & L3 & L4 & L5).
+  pose proof (stmt_iter_spec o nested nested_mono noGo noTry _ _ _ _ _ Ha L1 L2) as Hit.
+  assert (LI s) as L by (unfold LI; auto).
+  destruct a as [s1 d1 o1|s1 text|s1].
+  - eapply IH; [exact H|]. destruct Hit as [A|S]; [eapply LI_adv|eapply LI_strip]; eauto.
+  - destruct Hit as (A & Hpos & Htext). inv_bind H. destruct a as [st s2]. simpl in H. injection H as <- <-.
+    pose proof (LI_adv _ _ L A) as (M1 & M2 & M3 & M4 & M5).
+    assert (text = firstn (Z.to_nat (pos s1)) (input s1)) as Ht.
+    { destruct Htext as [Ht|[Ht Hlen]]; [exact Ht|]. rewrite Ht. symmetry. apply firstn_all2.
+      unfold zlen in Hlen. lia. }
+    destruct (emit_spec _ _ _ _ _ Ha0 Ht M1) as (E1 & E2 & E3 & E4 & E5 & E6 & E7).
+    destruct (M5 [] (input s1) (delim s1) eq_refl (Gap_nil o _)) as (g0 & Hg0 & HG0).
+    unfold StmtResult. rewrite E5. repeat split; auto.
+    + rewrite E1, zlen_app in M4. lia.
+    + exists g0, text. rewrite <- E1. repeat split; auto.
+      * intros ->. change (zlen []) with 0 in E7. lia.
+      * rewrite Hg0, zlen_app. lia.
+  - destruct Hit as (A & Hlen). injection H as <- <-.
+    pose proof (LI_adv _ _ L A) as (M1 & M2 & M3 & M4 & M5).
+    assert (input s1 = []) as Hin by (apply zlen_zero; pose proof (zlen_nonneg (input s1)); lia).
+    destruct (M5 [] [] (delim s1) ltac:(rewrite Hin; reflexivity) (Gap_nil o _)) as (g0 & Hg0 & HG0).
+    rewrite app_nil_r in Hg0. subst g0.
+    unfold StmtResult. repeat split; auto; try lia.
+Qed.
+End LoopSpec.
+
+Section StmtSpec.
+Variable o : opts.
+Hypothesis noGo : GoCommand o = false.
+Hypothesis noTry : MatchBeginTryCatch o = false.
+
+Lemma StmtResult_mono I0 D0 T0 s' r b :
+  StmtResult o I0 D0 T0 s' r -> I0 = input b -> T0 = total b + zlen (input b) ->
+  total b <= total s' /\ pos s' = 0 /\ delim s' <> [].
+Proof.
+  intros (R1 & R2 & R3 & R4) -> ->. repeat split; auto. destruct r as [st|].
+  - destruct R4 as (g & raw & Hin & _). rewrite Hin, !zlen_app in R3.
+    pose proof (zlen_nonneg g). pose proof (zlen_nonneg raw). lia.
+  - destruct R4 as [Hin _]. rewrite Hin in R3. change (zlen []) with 0 in R3.
+    pose proof (zlen_nonneg (input b)). lia.
+Qed.
+
+Lemma stmt_spec f : forall s s' r, stmt o f s = Ok (s', r) -> pos s = 0 -> delim s <> [] ->
+  StmtResult o (input s) (delim s) (total s + zlen (input s)) s' r.
+Proof.
+  induction f as [|f IH]; intros s s' r H Hp Hd; simpl in H; [discriminate|].
+  eapply (stmt_loop_spec o (stmt o f)); [|exact noGo|exact noTry|exact H|].
+  - intros b b' r0 Hb1 Hb2 Hb3. eapply StmtResult_mono; [eapply IH; eauto|reflexivity|reflexivity].
+  - destruct (trim_left_decomp (input s)) as (sp & Hsp & Hsp2 & Hsp3).
+    unfold LI, skipSpaces; simpl. repeat split; auto; try lia.
+    intros g tl d' Hg HG. exists (sp ++ g). split.
+    + rewrite Hsp at 1. rewrite Hg, app_assoc. reflexivity.
+    + apply Gap_space; auto.
+Qed.
+
+Lemma scan_loop_spec f : forall s acc ss, scan_loop o f s acc = Ok ss -> pos s = 0 -> delim s <> [] ->
+  exists ss', ss = rev acc ++ ss' /\ Lossless o (delim s) (total s) (input s) ss'.
+Proof.
+  induction f as [|f IH]; intros s acc ss H Hp Hd; [discriminate|].
+  cbn [scan_loop] in H. inv_bind H. destruct a as [s1 r].
+  pose proof (stmt_spec _ _ _ _ Ha Hp Hd) as (R1 & R2 & R3 & R4).
+  destruct r as [st|].
+  - destruct R4 as (g & raw & Hin & HG & HR & Hne & HP).
+    destruct (IH _ _ _ H R1 R2) as (ss' & Hss & HL).
+    exists (st :: ss'). split; [rewrite Hss; simpl; rewrite <- app_assoc; reflexivity|].
+    rewrite Hin. eapply LL_stmt; eauto; [lia|].
+    replace (total s + zlen g + zlen raw) with (total s1); [exact HL|].
+    rewrite Hin, !zlen_app in R3. lia.
+  - destruct R4 as [Hin HG]. injection H as <-. exists []. rewrite app_nil_r. split; [reflexivity|].
+    eapply LL_end; exact HG.
+Qed.
+
+(** the [-- atlas:delimiter] header line stripped by [init] (dir.go [directive]). *)
+Definition Header (inp hdr d0 : bytes) : Prop :=
+  (directive_delimiter inp = None /\ hdr = [] /\ d0 = delimiter) \/
+  (exists dd line, directive_delimiter inp = Some dd /\ dd <> [] /\ d0 = unescape_delim dd /\
+                   hdr = line ++ NL /\ ~ In 10%N line).
+
+Lemma index_of_nl_first s i : index_of s NL = Some i -> ~ In 10%N (firstn i s).
+Proof.
+  revert i; induction s as [|a s IH]; intros i; simpl.
+  - discriminate.
+  - destruct (N.eqb a 10) eqn:E; simpl.
+    + intros H; inversion H. cbv [firstn]. intros [].
+    + destruct (index_of s NL) eqn:E2; [|discriminate]. intros H; inversion H; subst.
+      cbv [firstn]. fold (@firstn N). intros [Hin|Hin]; [apply N.eqb_neq in E; congruence|].
+      apply (IH _ eq_refl Hin).
+Qed.
+
+Theorem Scan_lossless fuel inp ss :
+  Scan o fuel inp = Ok ss ->
+  exists hdr d0 rest, inp = hdr ++ rest /\ Header inp hdr d0 /\ Lossless o d0 (zlen hdr) rest ss.
+Proof.
+  unfold Scan. intros H. inv_bind H. rename a into s. unfold init in Ha.
+  destruct (directive_delimiter inp) as [dd|] eqn:Ed.
+  - inv_bind Ha. apply setDelim_ok in Ha0 as [Hdd ->].
+    destruct (index_of inp NL) as [i|] eqn:Ei; [|apply fail_not_ok in Ha; contradiction].
+    injection Ha as <-.
+    destruct (scan_loop_spec _ _ _ _ H eq_refl ltac:(simpl; apply unescape_delim_nonnil; exact Hdd)) as (ss' & -> & HL).
+    simpl in HL. pose proof (index_of_app _ _ _ Ei) as Happ. pose proof (index_of_spec _ _ _ Ei) as [_ Hi].
+    exists (firstn i inp ++ NL), (unescape_delim dd), (skipn (S i) inp).
+    assert (skipn (i + length NL) inp = skipn (S i) inp) as Hsk by (f_equal; simpl; lia).
+    rewrite Hsk in Happ. split; [rewrite <- app_assoc; exact Happ|]. split.
+    + right. exists dd, (firstn i inp). repeat split; auto. apply index_of_nl_first; exact Ei.
+    + replace (zlen (firstn i inp ++ NL)) with (zlen inp - zlen (skipn (S i) inp)); [exact HL|].
+      rewrite Happ at 1. rewrite !zlen_app. lia.
+  - injection Ha as <-.
+    destruct (scan_loop_spec _ _ _ _ H eq_refl ltac:(simpl; discriminate)) as (ss' & -> & HL).
+    exists [], delimiter, inp. split; [reflexivity|]. split; [left; auto|exact HL].
+Qed.
+End StmtSpec.
+
+(** * Positions and lines, from losslessness *)
+(** Go's [input[Pos : Pos+len(Text)] == Text], without panic. *)
+Definition TextAt (inp : bytes) (st : Stmt) : Prop :=
+  slice inp (Pos st) (Pos st + zlen (Text st)) = Ok (Text st).
+
+(** positions strictly increase and the intervals [Pos, Pos+|Text|) are disjoint, all >= lo. *)
+Fixpoint ordered (lo : Z) (ss : list Stmt) : Prop :=
+  match ss with
+  | [] => True
+  | st :: r => lo <= Pos st /\ ordered (Z.max (Pos st + 1) (Pos st + zlen (Text st))) r
+  end.
+
+Lemma ordered_weaken ss : forall lo lo', lo' <= lo -> ordered lo ss -> ordered lo' ss.
+Proof. destruct ss as [|st r]; simpl; intros lo lo' H; [auto|]. intros [H1 H2]. split; [lia|exact H2]. Qed.
+
+Lemma slice_mid (a b c : bytes) : slice (a ++ b ++ c) (zlen a) (zlen a + zlen b) = Ok b.
+Proof.
+  unfold slice. pose proof (zlen_nonneg a). pose proof (zlen_nonneg b). pose proof (zlen_nonneg c).
+  rewrite !zlen_app.
+  destruct (zlen a <? 0) eqn:E1; [bnorm; lia|]. destruct (zlen a + zlen b <? zlen a) eqn:E2; [bnorm; lia|].
+  destruct (zlen a + (zlen b + zlen c) <? zlen a + zlen b) eqn:E3; [bnorm; lia|]. simpl. f_equal.
+  apply (skipn_firstn_mid _ a b c); [reflexivity|reflexivity|lia].
+Qed.
+
+Lemma lossless_positions o d off rest ss :
+  Lossless o d off rest ss -> forall pre, zlen pre = off ->
+  Forall (TextAt (pre ++ rest)) ss /\ ordered off ss.
+Proof.
+  induction 1 as [d off g d' HG|d off g d' raw rest st ss HG HR Hne HP HL IH]; intros pre Hpre.
+  - split; constructor.
+  - destruct HR as (sp & dl & Hraw & _ & _).
+    destruct (IH (pre ++ g ++ raw) ltac:(rewrite !zlen_app; lia)) as [IH1 IH2].
+    assert (1 <= zlen raw) as Hr1.
+    { destruct raw; [congruence|]. rewrite zlen_cons. pose proof (zlen_nonneg raw). lia. }
+    assert (zlen (Text st) <= zlen raw) as Hr2.
+    { rewrite Hraw, !zlen_app. pose proof (zlen_nonneg sp). pose proof (zlen_nonneg dl). lia. }
+    pose proof (zlen_nonneg g) as Hg0.
+    split.
+    + constructor.
+      * unfold TextAt. rewrite HP, Hraw.
+        replace (pre ++ g ++ (Text st ++ sp ++ dl) ++ rest) with ((pre ++ g) ++ Text st ++ (sp ++ dl ++ rest))
+          by (rewrite <- !app_assoc; reflexivity).
+        replace (off + zlen g) with (zlen (pre ++ g)) by (rewrite zlen_app; lia).
+        apply slice_mid.
+      * replace (pre ++ g ++ raw ++ rest) with ((pre ++ g ++ raw) ++ rest) by (rewrite <- !app_assoc; reflexivity).
+        exact IH1.
+    + simpl. split; [lia|]. eapply ordered_weaken; [|exact IH2]. lia.
+Qed.
+
+(** an independent reading of "the 1-based line of offset p": walk the text, count newlines. *)
+Fixpoint line_walk (s : bytes) (n : nat) (line : Z) : Z :=
+  match n, s with
+  | S n', a :: t => line_walk t n' (if N.eqb a 10 then line + 1 else line)
+  | _, _ => line
+  end.
+Definition line_of (inp : bytes) (p : Z) : Z := line_walk inp (Z.to_nat p) 1.
+
+Lemma count_nl_cons a t : count_nl (a :: t) = (if N.eqb a 10 then 1 else 0) + count_nl t.
+Proof.
+  unfold count_nl. cbn [filter]. destruct (N.eqb_spec 10 a), (N.eqb_spec a 10); subst; try congruence;
+    simpl length; lia.
+Qed.
+Lemma line_walk_count s : forall n l, line_walk s n l = count_nl (firstn n s) + l.
+Proof.
+  induction s as [|a t IH]; intros [|n] l; cbv [firstn]; fold (@firstn N); simpl line_walk;
+    try (unfold count_nl; simpl; lia).
+  rewrite IH, count_nl_cons. destruct (N.eqb a 10); lia.
+Qed.
+
+Lemma Line_spec inp st : TextAt inp st -> Line inp (Pos st) = Ok (line_of inp (Pos st)).
+Proof.
+  unfold TextAt, Line. intros H. apply slice_ok in H as (H1 & H2 & _).
+  pose proof (zlen_nonneg (Text st)).
+  unfold slice_to. destruct (Pos st <? 0) eqn:E1; [bnorm; lia|]. destruct (zlen inp <? Pos st) eqn:E2; [bnorm; lia|].
+  simpl. unfold line_of. rewrite line_walk_count. reflexivity.
+Qed.
